@@ -772,3 +772,514 @@ Proof.
     + unfold get_sess in Hs0. apply aget_In in Hs0. apply in_map_iff. exists (vs, s0). auto.
     + exists s0, v. split; [exact Hs0|congruence].
 Qed.
+
+(* ------------------------------------------------------------------ connections *)
+(* detaching a session from its connection when no connection entry names the session any more *)
+Lemma wf_sess_conn_none xr xp h sid s :
+  WFg xr xp h -> get_sess h sid = Some s ->
+  (forall c cn, aget (h_conns h) c = Some cn -> c_sess cn <> Some sid) ->
+  WFg xr xp (put_sess h sid (sess_conn s None)).
+Proof.
+  intros W Hs Hno.
+  assert (Hget : forall x, get_sess (put_sess h sid (sess_conn s None)) x = if N.eqb x sid then Some (sess_conn s None) else get_sess h x).
+  { intros x. unfold get_sess, put_sess. hsimpl. apply aget_aset. }
+  assert (Hlive : forall x, live h x -> live (put_sess h sid (sess_conn s None)) x).
+  { intros x [sx Hx]. unfold live. rewrite Hget. destruct (N.eqb_spec x sid); eauto. }
+  constructor.
+  - intros k r m Hr Hm. destruct (wf_members _ _ h W k r m Hr Hm) as [sm [Hsm Hkm]]. rewrite Hget.
+    destruct (N.eqb_spec m sid) as [->|]; [|eauto]. rewrite Hs in Hsm. injection Hsm as <-. eexists; split; [reflexivity|exact Hkm].
+  - apply (wf_nonempty _ _ h W).
+  - apply (wf_incall _ _ h W).
+  - intros x sx k. rewrite Hget. destruct (N.eqb_spec x sid) as [->|].
+    + intros H. injection H as <-. intros Hk. apply (wf_room _ _ h W sid s k Hs Hk).
+    + apply (wf_room _ _ h W).
+  - intros x v Hx. destruct (wf_rs1 _ _ h W x v Hx) as [sx [k [Hsx Hkx]]]. rewrite Hget.
+    destruct (N.eqb_spec x sid) as [->|]; [|eauto]. rewrite Hs in Hsx. injection Hsx as <-. eexists _, k; split; [reflexivity|exact Hkx].
+  - apply (wf_rs2 _ _ h W).
+  - intros p v vs Hv. destruct (wf_vt _ _ h W p v vs Hv) as [sv [Hsv Hkv]]. rewrite Hget.
+    destruct (N.eqb_spec vs sid) as [->|]; [|eauto]. rewrite Hs in Hsv. injection Hsv as <-. eexists; split; [reflexivity|exact Hkv].
+  - intros vs sv p v. rewrite Hget. intros Hsv Hkv.
+    assert (Hp : xp p \/ exists ps, get_sess h p = Some ps /\ is_internal (s_kind ps) = true).
+    { destruct (N.eqb_spec vs sid) as [->|]; [injection Hsv as <-; apply (wf_parent _ _ h W sid s p v Hs Hkv)|apply (wf_parent _ _ h W vs sv p v Hsv Hkv)]. }
+    destruct Hp as [?|[ps [Hps Hpi]]]; [now left|right]. rewrite Hget.
+    destruct (N.eqb_spec p sid) as [->|]; [|eauto]. rewrite Hs in Hps. injection Hps as <-. eexists; split; [reflexivity|exact Hpi].
+  - intros x Hx. apply Hlive. eapply wf_expired; eauto.
+  - intros x Hx. apply Hlive. eapply wf_anonymous; eauto.
+  - intros x Hx. apply Hlive. eapply wf_dialout; eauto.
+  - intros x Hx. apply Hlive. eapply wf_clients; eauto.
+  - intros b l x Hb Hx. apply Hlive. eapply wf_counted; eauto.
+  - intros c cn x Hc Hx. destruct (wf_conns _ _ h W c cn x Hc Hx) as [sx [Hsx Hcx]]. rewrite Hget.
+    destruct (N.eqb_spec x sid) as [->|]; [|eauto]. exfalso. eapply Hno; eauto.
+Qed.
+
+Lemma wf_del_conn xr xp h c : WFg xr xp h -> WFg xr xp (set_conns h (adel (h_conns h) c)).
+Proof.
+  intros W. constructor; try apply W.
+  intros c' cn x. hsimpl. rewrite aget_adel. destruct (N.eqb_spec c' c); [discriminate|]. apply (wf_conns _ _ h W).
+Qed.
+
+(* updating a connection entry without (re)attaching a session *)
+Lemma wf_set_conn_nosess xr xp h c cn : WFg xr xp h -> c_sess cn = None -> WFg xr xp (set_conns h (aset (h_conns h) c cn)).
+Proof.
+  intros W Hn. constructor; try apply W.
+  intros c' cn' x. hsimpl. rewrite aget_aset. destruct (N.eqb_spec c' c) as [->|]; [|apply (wf_conns _ _ h W)].
+  intros H. injection H as <-. congruence.
+Qed.
+
+Lemma wf_close_conn xr h c : WFg xr none1 h -> WFg xr none1 (fst (close_conn h c)).
+Proof.
+  intros W. unfold close_conn. destruct (aget (h_conns h) c) as [cn|] eqn:Hc; [|exact W].
+  pose proof (wf_del_conn _ _ h c W) as W1.
+  destruct (c_sess cn) as [sid|] eqn:Hcs; [|exact W1].
+  destruct (close_session _ sid) as [h3 outs] eqn:Hcl. cbn [fst].
+  rewrite (fst_eq _ _ _ Hcl). apply wf_close_session.
+  destruct (get_sess (set_conns h (adel (h_conns h) c)) sid) as [s|] eqn:Hs; [|exact W1].
+  apply wf_sess_conn_none; [exact W1|exact Hs|].
+  intros c' cn'. hsimpl. rewrite aget_adel. destruct (N.eqb_spec c' c) as [->|Hne]; [discriminate|].
+  intros Hc' Hx.
+  (* two connection entries naming the same session: the session names only one connection *)
+  destruct (wf_conns _ _ h W c cn sid Hc Hcs) as [s1 [Hs1 Hc1]].
+  destruct (wf_conns _ _ h W c' cn' sid Hc' Hx) as [s2 [Hs2 Hc2]]. rewrite Hs1 in Hs2. injection Hs2 as <-. congruence.
+Qed.
+
+Lemma wf_send_session xr h sid m : WFg xr none1 h -> WFg xr none1 (fst (send_session h sid m)).
+Proof.
+  intros W. unfold send_session.
+  match goal with |- context [deliver_to_session h ?t m] => set (target := t) end.
+  destruct (deliver_to_session h target m) as [h1 outs] eqn:Hd. pose proof (fst_eq _ _ _ Hd) as E1.
+  assert (W1 : WFg xr none1 h1) by (rewrite E1; eapply wf_equiv; [apply equiv_deliver_to_session|exact W]).
+  destruct outs as [|[c mm| | |] [|o2 outs2]]; cbn [fst]; try exact W1.
+  destruct (is_closing h1 c mm); [|exact W1].
+  destruct (close_conn h1 c) as [h2 outs2] eqn:Hc. cbn [fst]. rewrite (fst_eq _ _ _ Hc). now apply wf_close_conn.
+Qed.
+
+Lemma wf_send_conn xr h c m : WFg xr none1 h -> WFg xr none1 (fst (send_conn h c m)).
+Proof.
+  intros W. unfold send_conn. destruct (aget (h_conns h) c); [|exact W].
+  destruct (is_closing h c m); [|exact W].
+  destruct (close_conn h c) as [h2 outs2] eqn:Hc. cbn [fst]. rewrite (fst_eq _ _ _ Hc). now apply wf_close_conn.
+Qed.
+
+Lemma wf_fold_sessions (P : hub -> Prop) h l f :
+  P h -> (forall hh x, P hh -> P (fst (f hh x))) -> P (fst (fold_sessions h l f)).
+Proof.
+  intros Hh Hf. unfold fold_sessions.
+  assert (forall acc, P (fst acc) -> P (fst (fold_left (fun acc x => let '(hh, oo) := acc in let '(hh', oo') := f hh x in (hh', oo ++ oo')) l acc))).
+  { induction l as [|x l IH]; intros [hh oo] Hacc; cbn [fold_left]; [exact Hacc|].
+    apply IH. destruct (f hh x) as [hh' oo'] eqn:Hfx. cbn [fst] in *. rewrite (fst_eq _ _ _ Hfx). now apply Hf. }
+  now apply H.
+Qed.
+
+(* ------------------------------------------------------------------ new sessions *)
+Lemma max_key_ge {V} (l : alist V) : forall acc k v, In (k, v) l -> k <= fold_left (fun a e => N.max a (fst e)) l acc.
+Proof.
+  induction l as [|[k0 v0] r IH]; intros acc k v; cbn; [intros []|].
+  intros [H|H].
+  - injection H as -> ->. clear IH. revert acc. induction r as [|[k1 v1] r IH]; intros acc; cbn; [lia|].
+    etransitivity; [apply (IH acc)|]. clear. revert acc.
+    assert (forall a b, a <= b -> fold_left (fun a0 e => N.max a0 (fst e)) r a <= fold_left (fun a0 e => N.max a0 (fst e)) r b).
+    { induction r as [|[k2 v2] r IH]; intros a b Hab; cbn; [assumption|]. apply IH. lia. }
+    intros acc. apply H. lia.
+  - now apply IH with v.
+Qed.
+
+Lemma next_id_fresh h : get_sess h (next_id h) = None.
+Proof.
+  destruct (get_sess h (next_id h)) as [s|] eqn:Hs; [|reflexivity].
+  unfold get_sess in Hs. apply aget_In in Hs. pose proof (max_key_ge (h_sessions h) 0 _ _ Hs) as Hle.
+  unfold next_id, max_key in *. lia.
+Qed.
+
+Lemma wf_new_session xr xp h sid s :
+  WFg xr xp h -> get_sess h sid = None -> s_room s = None ->
+  (forall p v, s_kind s = KVirtual p v -> xp p \/ exists ps, get_sess h p = Some ps /\ is_internal (s_kind ps) = true) ->
+  WFg xr xp (put_sess h sid s).
+Proof.
+  intros W Hn Hroom Hpar.
+  assert (Hget : forall x, get_sess (put_sess h sid s) x = if N.eqb x sid then Some s else get_sess h x).
+  { intros x. unfold get_sess, put_sess. hsimpl. apply aget_aset. }
+  assert (Hold : forall x sx, get_sess h x = Some sx -> get_sess (put_sess h sid s) x = Some sx).
+  { intros x sx Hx. rewrite Hget. destruct (N.eqb_spec x sid) as [->|]; [congruence|assumption]. }
+  assert (Hlive : forall x, live h x -> live (put_sess h sid s) x).
+  { intros x [sx Hx]. exists sx. now apply Hold. }
+  constructor.
+  - intros k r m Hr Hm. destruct (wf_members _ _ h W k r m Hr Hm) as [sm [Hsm Hkm]]. eauto.
+  - apply (wf_nonempty _ _ h W).
+  - apply (wf_incall _ _ h W).
+  - intros x sx k. rewrite Hget. destruct (N.eqb_spec x sid) as [->|]; [intros H; injection H as <-; congruence|apply (wf_room _ _ h W)].
+  - intros x v Hx. destruct (wf_rs1 _ _ h W x v Hx) as [sx [k [Hsx Hkx]]]. eauto.
+  - apply (wf_rs2 _ _ h W).
+  - intros p v vs Hv. destruct (wf_vt _ _ h W p v vs Hv) as [sv [Hsv Hkv]]. eauto.
+  - intros vs sv p v. rewrite Hget. destruct (N.eqb_spec vs sid) as [->|].
+    + intros H. injection H as <-. intros Hk. destruct (Hpar p v Hk) as [?|[ps [Hps Hpi]]]; [now left|right; eauto].
+    + intros Hsv Hkv. destruct (wf_parent _ _ h W vs sv p v Hsv Hkv) as [?|[ps [Hps Hpi]]]; [now left|right; eauto].
+  - intros x Hx. apply Hlive. eapply wf_expired; eauto.
+  - intros x Hx. apply Hlive. eapply wf_anonymous; eauto.
+  - intros x Hx. apply Hlive. eapply wf_dialout; eauto.
+  - intros x Hx. apply Hlive. eapply wf_clients; eauto.
+  - intros b l x Hb Hx. apply Hlive. eapply wf_counted; eauto.
+  - intros c cn x Hc Hx. destruct (wf_conns _ _ h W c cn x Hc Hx) as [sx [Hsx Hcx]]. eauto.
+Qed.
+
+Lemma live_put_same h sid s : live (put_sess h sid s) sid.
+Proof. exists s. unfold get_sess, put_sess. hsimpl. apply aget_aset_same. Qed.
+
+Lemma wf_set_counted xr xp h v : WFg xr xp h ->
+  (forall b l x, aget v b = Some l -> In x l -> live h x) -> WFg xr xp (set_counted h v).
+Proof. intros W Hv. constructor; try apply W. exact Hv. Qed.
+
+(* attaching a connection to a session that names it *)
+Lemma wf_attach_conn xr xp h c cn sid s :
+  WFg xr xp h -> get_sess h sid = Some s -> s_conn s = Some c -> c_sess cn = Some sid ->
+  WFg xr xp (set_conns h (aset (h_conns h) c cn)).
+Proof.
+  intros W Hs Hc Hcs. constructor; try apply W.
+  intros c' cn' x. hsimpl. rewrite aget_aset. destruct (N.eqb_spec c' c) as [->|]; [|apply (wf_conns _ _ h W)].
+  intros H. injection H as <-. rewrite Hcs. intros Hx. injection Hx as <-. eauto.
+Qed.
+
+Lemma wf_register xr xp h c cn b k u :
+  WFg xr xp h -> is_virtual k = false -> WFg xr xp (fst (register h c cn b k u)).
+Proof.
+  intros W Hk. unfold register.
+  set (sid := next_id h).
+  assert (Hfresh : get_sess (set_nextsid h sid) sid = None) by (exact (next_id_fresh h)).
+  assert (W0 : WFg xr xp (set_nextsid h sid)) by (eapply wf_equiv; [apply equiv_nextsid|exact W]).
+  match goal with |- context [if ?cond then _ else _] => destruct cond end.
+  - cbn [fst]. now apply wf_set_conn_nosess.
+  - cbn [fst].
+    set (h1 := if negb (is_internal k) && negb (N.eqb (limit_of h b) 0)
+               then set_counted (set_nextsid h sid) (aset (h_counted (set_nextsid h sid)) b (counted_of (set_nextsid h sid) b ++ [sid]))
+               else set_nextsid h sid).
+    set (h2 := put_sess h1 sid (new_session b k u c)).
+    assert (Hs2 : get_sess h2 sid = Some (new_session b k u c)).
+    { unfold h2, get_sess, put_sess. hsimpl. apply aget_aset_same. }
+    assert (W2 : WFg xr xp h2).
+    { (* the counted list may name the new session: add the session first, then the entry *)
+      assert (Wp : WFg xr xp (put_sess (set_nextsid h sid) sid (new_session b k u c))).
+      { apply wf_new_session; auto. intros p v Hkv. unfold new_session in Hkv. cbn in Hkv. subst k. discriminate. }
+      unfold h2, h1. destruct (negb (is_internal k) && negb (N.eqb (limit_of h b) 0)); [|exact Wp].
+      assert (E : put_sess (set_counted (set_nextsid h sid) (aset (h_counted (set_nextsid h sid)) b (counted_of (set_nextsid h sid) b ++ [sid]))) sid (new_session b k u c)
+                  = set_counted (put_sess (set_nextsid h sid) sid (new_session b k u c)) (aset (h_counted h) b (counted_of h b ++ [sid]))) by reflexivity.
+      rewrite E. apply wf_set_counted; [exact Wp|].
+      intros b' l x. rewrite aget_aset. destruct (N.eqb_spec b' b) as [->|].
+      - intros H. injection H as <-. intros Hin. apply in_app_or in Hin as [Hin|[<-|[]]]; [|apply live_put_same].
+        assert (Hl : live (set_nextsid h sid) x).
+        { unfold counted_of in Hin. destruct (aget (h_counted h) b) as [l0|] eqn:Hb; [|destruct Hin]. apply (wf_counted _ _ _ W0 b l0); assumption. }
+        destruct Hl as [sx Hx]. exists sx. unfold get_sess, put_sess in *. hsimpl. rewrite aget_aset.
+        destruct (N.eqb_spec x sid) as [->|]; [|assumption]. unfold sid in Hx. pose proof (next_id_fresh h) as Hf. unfold get_sess in Hf. congruence.
+      - intros Hb Hin. assert (Hl : live (set_nextsid h sid) x) by (apply (wf_counted _ _ _ W0 b' l); assumption).
+        destruct Hl as [sx Hx]. exists sx. unfold get_sess, put_sess in *. hsimpl. rewrite aget_aset.
+        destruct (N.eqb_spec x sid) as [->|]; [|assumption]. pose proof (next_id_fresh h) as Hf. unfold get_sess in Hf. unfold sid in Hx. congruence. }
+    set (h3 := set_clients h2 (nadd sid (h_clients h2))).
+    assert (W3 : WFg xr xp h3).
+    { apply wf_set_clients; [exact W2|]. intros x Hx. apply in_nadd in Hx as [->|Hx]; [eexists; exact Hs2|apply (wf_clients _ _ _ W2 x Hx)]. }
+    set (h4 := set_conns h3 (aset (h_conns h3) c (mkconn (c_addr cn) (Some sid) false))).
+    assert (W4 : WFg xr xp h4).
+    { apply (wf_attach_conn _ _ h3 c _ sid (new_session b k u c)); auto. }
+    assert (Hs4 : live h4 sid) by (eexists; exact Hs2).
+    destruct (N.eqb u 0 && negb (is_internal k)).
+    + apply wf_set_anonymous; [exact W4|]. intros x Hx. apply in_nadd in Hx as [->|Hx]; [exact Hs4|apply (wf_anonymous _ _ _ W4 x Hx)].
+    + destruct k as [|f d|]; try exact W4. destruct d; [|exact W4].
+      apply wf_set_dialout; [exact W4|]. intros x Hx. apply in_nadd in Hx as [->|Hx]; [exact Hs4|apply (wf_dialout _ _ _ W4 x Hx)].
+Qed.
+
+(* ------------------------------------------------------------------ hello *)
+(* replacing a session by one with the same room and kind but another connection, when no
+   connection entry names the session *)
+Lemma wf_sess_reconn xr xp h sid s0 s1 :
+  WFg xr xp h -> get_sess h sid = Some s0 -> s_room s1 = s_room s0 -> s_kind s1 = s_kind s0 ->
+  (forall c cn, aget (h_conns h) c = Some cn -> c_sess cn <> Some sid) ->
+  WFg xr xp (put_sess h sid s1).
+Proof.
+  intros W Hs Hr Hk Hno.
+  assert (Hget : forall x, get_sess (put_sess h sid s1) x = if N.eqb x sid then Some s1 else get_sess h x).
+  { intros x. unfold get_sess, put_sess. hsimpl. apply aget_aset. }
+  assert (Hlive : forall x, live h x -> live (put_sess h sid s1) x).
+  { intros x [sx Hx]. unfold live. rewrite Hget. destruct (N.eqb_spec x sid); eauto. }
+  constructor.
+  - intros k r m Hr0 Hm. destruct (wf_members _ _ h W k r m Hr0 Hm) as [sm [Hsm Hkm]]. rewrite Hget.
+    destruct (N.eqb_spec m sid) as [->|]; [|eauto]. rewrite Hs in Hsm. injection Hsm as <-. eexists; split; [reflexivity|congruence].
+  - apply (wf_nonempty _ _ h W).
+  - apply (wf_incall _ _ h W).
+  - intros x sx k. rewrite Hget. destruct (N.eqb_spec x sid) as [->|].
+    + intros H. injection H as <-. intros Hk1. apply (wf_room _ _ h W sid s0 k Hs). congruence.
+    + apply (wf_room _ _ h W).
+  - intros x v Hx. destruct (wf_rs1 _ _ h W x v Hx) as [sx [k [Hsx Hkx]]]. rewrite Hget.
+    destruct (N.eqb_spec x sid) as [->|]; [|eauto]. rewrite Hs in Hsx. injection Hsx as <-. eexists _, k; split; [reflexivity|congruence].
+  - apply (wf_rs2 _ _ h W).
+  - intros p v vs Hv. destruct (wf_vt _ _ h W p v vs Hv) as [sv [Hsv Hkv]]. rewrite Hget.
+    destruct (N.eqb_spec vs sid) as [->|]; [|eauto]. rewrite Hs in Hsv. injection Hsv as <-. eexists; split; [reflexivity|congruence].
+  - intros vs sv p v. rewrite Hget. intros Hsv Hkv.
+    assert (Hp : xp p \/ exists ps, get_sess h p = Some ps /\ is_internal (s_kind ps) = true).
+    { destruct (N.eqb_spec vs sid) as [->|]; [injection Hsv as <-; apply (wf_parent _ _ h W sid s0 p v Hs); congruence|apply (wf_parent _ _ h W vs sv p v Hsv Hkv)]. }
+    destruct Hp as [?|[ps [Hps Hpi]]]; [now left|right]. rewrite Hget.
+    destruct (N.eqb_spec p sid) as [->|]; [|eauto]. rewrite Hs in Hps. injection Hps as <-. eexists; split; [reflexivity|congruence].
+  - intros x Hx. apply Hlive. eapply wf_expired; eauto.
+  - intros x Hx. apply Hlive. eapply wf_anonymous; eauto.
+  - intros x Hx. apply Hlive. eapply wf_dialout; eauto.
+  - intros x Hx. apply Hlive. eapply wf_clients; eauto.
+  - intros b l x Hb Hx. apply Hlive. eapply wf_counted; eauto.
+  - intros c cn x Hc Hx. destruct (wf_conns _ _ h W c cn x Hc Hx) as [sx [Hsx Hcx]]. rewrite Hget.
+    destruct (N.eqb_spec x sid) as [->|]; [|eauto]. exfalso. eapply Hno; eauto.
+Qed.
+
+Lemma send_bye_detached h c cn r :
+  aget (h_conns h) c = Some cn -> c_sess cn = None ->
+  fst (send_conn h c (SBye r)) = set_conns h (adel (h_conns h) c).
+Proof.
+  intros Hc Hs. unfold send_conn. rewrite Hc. cbn [is_closing]. unfold close_conn. rewrite Hc, Hs. reflexivity.
+Qed.
+
+Lemma wf_do_hello xr h c cn hl :
+  WFg xr none1 h -> aget (h_conns h) c = Some (mkconn (c_addr cn) None (match hl with HResume _ => c_expect cn | _ => false end)) ->
+  WFg xr none1 (fst (do_hello h c cn hl)).
+Proof.
+  intros W Hc. unfold do_hello.
+  assert (Wexp : WFg xr none1 (set_conns h (aset (h_conns h) c (mkconn (c_addr cn) None true)))) by now apply wf_set_conn_nosess.
+  destruct hl as [b u rej|b tok f d|i].
+  - (* v1 *)
+    destruct (h_nb h <=? b); [exact Wexp|]. destruct rej; [exact Wexp|].
+    destruct (register h c cn b KClient u) as [h1 o1] eqn:Hr. cbn [fst]. rewrite (fst_eq _ _ _ Hr). now apply wf_register.
+  - (* internal *)
+    destruct (throttled h (c_addr cn) ACT_INTERNAL); [exact Wexp|].
+    destruct (negb (N.eqb tok 0)).
+    { cbn [fst]. apply wf_set_conn_nosess; [|reflexivity]. eapply wf_equiv; [apply equiv_fail|exact W]. }
+    destruct (h_nb h <=? b).
+    { cbn [fst]. apply wf_set_conn_nosess; [|reflexivity]. eapply wf_equiv; [apply equiv_fail|exact W]. }
+    now apply wf_register.
+  - (* resume *)
+    destruct (throttled h (c_addr cn) ACT_RESUME); [exact W|].
+    destruct i as [n|n|k|n]; try (cbn [fst]; eapply wf_equiv; [apply equiv_fail|exact W]).
+    destruct (get_sess h n) as [s|] eqn:Hs; [|exact W].
+    destruct (is_virtual (s_kind s)) eqn:Hv; [exact W|].
+    (* state after the previous connection was told to go *)
+    set (P := match s_conn s with
+              | Some c' => if N.eqb c' c then (h, [])
+                           else send_conn (match aget (h_conns h) c' with
+                                           | Some cn' => set_conns h (aset (h_conns h) c' (mkconn (c_addr cn') None (c_expect cn')))
+                                           | None => h end) c' (SBye B_session_resumed)
+              | None => (h, []) end).
+    assert (HP : WFg xr none1 (fst P) /\ get_sess (fst P) n = Some s /\
+                 (forall c0 cn0, aget (h_conns (fst P)) c0 = Some cn0 -> c_sess cn0 <> Some n) /\
+                 aget (h_conns (fst P)) c = Some (mkconn (c_addr cn) None (c_expect cn))).
+    { assert (Hbase : forall c0 cn0, aget (h_conns h) c0 = Some cn0 -> c_sess cn0 = Some n -> s_conn s = Some c0).
+      { intros c0 cn0 H0 H1. destruct (wf_conns _ _ h W c0 cn0 n H0 H1) as [s' [Hs' Hc']]. rewrite Hs in Hs'. injection Hs' as <-. exact Hc'. }
+      unfold P. destruct (s_conn s) as [c'|] eqn:Hcs.
+      - destruct (N.eqb_spec c' c) as [->|Hne].
+        + cbn [fst]. split; [exact W|]. split; [exact Hs|]. split; [|exact Hc].
+          intros c0 cn0 H0 H1. pose proof (Hbase c0 cn0 H0 H1) as Hx. injection Hx as <-. rewrite Hc in H0. injection H0 as <-. discriminate.
+        + destruct (aget (h_conns h) c') as [cn'|] eqn:Hc'.
+          * rewrite (send_bye_detached _ c' (mkconn (c_addr cn') None (c_expect cn')) B_session_resumed); [|hsimpl; apply aget_aset_same|reflexivity].
+            hsimpl. split; [apply wf_del_conn; now apply wf_set_conn_nosess|]. split; [exact Hs|]. split.
+            -- intros c0 cn0. rewrite aget_adel. destruct (N.eqb_spec c0 c'); [discriminate|]. rewrite aget_aset_other by assumption.
+               intros H0 H1. pose proof (Hbase c0 cn0 H0 H1). congruence.
+            -- rewrite aget_adel. destruct (N.eqb_spec c c'); [congruence|]. rewrite aget_aset_other by assumption. exact Hc.
+          * unfold send_conn. rewrite Hc'. cbn [fst]. split; [exact W|]. split; [exact Hs|]. split; [|exact Hc].
+            intros c0 cn0 H0 H1. pose proof (Hbase c0 cn0 H0 H1) as Hx. injection Hx as <-. congruence.
+      - cbn [fst]. split; [exact W|]. split; [exact Hs|]. split; [|exact Hc].
+        intros c0 cn0 H0 H1. pose proof (Hbase c0 cn0 H0 H1). discriminate. }
+    destruct P as [h1 outs1]. cbn [fst] in HP. destruct HP as (W1 & Hs1 & Hno1 & Hc1). cbn [fst].
+    set (s1 := sess_pending (sess_conn s (Some c)) []).
+    assert (W2 : WFg xr none1 (put_sess h1 n s1)) by (apply (wf_sess_reconn _ _ h1 n s s1); auto).
+    assert (Hs2 : get_sess (put_sess h1 n s1) n = Some s1) by (unfold get_sess, put_sess; hsimpl; apply aget_aset_same).
+    assert (W3 : WFg xr none1 (set_expired (put_sess h1 n s1) (nrem n (h_expired (put_sess h1 n s1))))).
+    { apply wf_set_expired; [exact W2|]. intros x Hx. apply (wf_expired _ _ _ W2). eapply in_nrem; eauto. }
+    set (h3 := set_expired (put_sess h1 n s1) (nrem n (h_expired (put_sess h1 n s1)))) in *.
+    assert (W4 : WFg xr none1 (set_clients h3 (nadd n (h_clients h3)))).
+    { apply wf_set_clients; [exact W3|]. intros x Hx. apply in_nadd in Hx as [->|Hx]; [eexists; exact Hs2|apply (wf_clients _ _ _ W3 x Hx)]. }
+    apply (wf_attach_conn _ _ _ c _ n s1); auto.
+Qed.
+
+(* ------------------------------------------------------------------ joining *)
+Lemma wf_enter_room xr xp h sid s s1 k r' :
+  WFg xr xp h -> get_sess h sid = Some s -> s_room s = None ->
+  s_room s1 = Some k -> s_kind s1 = s_kind s -> s_conn s1 = s_conn s ->
+  let r := match room_of h k with Some x => x | None => empty_room end in
+  r_members r' = nadd sid (r_members r) -> r_incall r' = r_incall r ->
+  WFg xr xp (put_sess (set_rooms h (pset (h_rooms h) k r')) sid s1).
+Proof.
+  intros W Hs Hnone Hk1 Hkind Hconn r Hmem Hinc.
+  set (F := put_sess (set_rooms h (pset (h_rooms h) k r')) sid s1).
+  assert (Hget : forall x, get_sess F x = if N.eqb x sid then Some s1 else get_sess h x).
+  { intros x. unfold F, get_sess, put_sess. hsimpl. apply aget_aset. }
+  assert (Hlive : forall x, live h x -> live F x).
+  { intros x [sx Hx]. unfold live. rewrite Hget. destruct (N.eqb_spec x sid); eauto. }
+  assert (Hroom : forall k', room_of F k' = if pair_eqb k' k then Some r' else room_of h k').
+  { intros k'. unfold F, room_of, put_sess. hsimpl. apply pget_pset. }
+  assert (Hnomem : forall k' r0, room_of h k' = Some r0 -> ~ In sid (r_members r0)).
+  { intros k' r0 Hr Hin. destruct (wf_members _ _ h W k' r0 sid Hr Hin) as [s0 [Hs0 Hk0]]. rewrite Hs in Hs0. injection Hs0 as <-. congruence. }
+  assert (Hrold : forall m, In m (r_members r) -> exists sm, get_sess h m = Some sm /\ s_room sm = Some k).
+  { intros m Hm. unfold r in Hm. destruct (room_of h k) as [r0|] eqn:Hr0; [|destruct Hm]. eapply wf_members; eauto. }
+  constructor.
+  - intros k' r0 m. rewrite Hroom. destruct (pair_eqb_spec k' k) as [->|Hne].
+    + intros H. injection H as <-. rewrite Hmem. intros Hm. apply in_nadd in Hm as [->|Hm].
+      * exists s1. rewrite Hget, N.eqb_refl. auto.
+      * destruct (Hrold m Hm) as [sm [Hsm Hkm]]. exists sm. rewrite Hget.
+        destruct (N.eqb_spec m sid) as [->|]; [|auto]. rewrite Hs in Hsm. injection Hsm as <-. congruence.
+    + intros Hr0 Hm. destruct (wf_members _ _ h W k' r0 m Hr0 Hm) as [sm [Hsm Hkm]]. exists sm. rewrite Hget.
+      destruct (N.eqb_spec m sid) as [->|]; [|auto]. exfalso. eapply Hnomem; eauto.
+  - intros k' r0. rewrite Hroom. destruct (pair_eqb_spec k' k) as [->|]; [|apply (wf_nonempty _ _ h W)].
+    intros H. injection H as <-. rewrite Hmem. intros Hnil.
+    assert (In sid (nadd sid (r_members r))) by (apply in_nadd_intro; now left). rewrite Hnil in H. destruct H.
+  - intros k' r0 m. rewrite Hroom. destruct (pair_eqb_spec k' k) as [->|]; [|apply (wf_incall _ _ h W)].
+    intros H. injection H as <-. rewrite Hinc, Hmem. intros Hi. apply in_nadd_intro. right.
+    unfold r in *. destruct (room_of h k) as [r0|] eqn:Hr0; [|destruct Hi]. eapply wf_incall; eauto.
+  - intros x sx k'. rewrite Hget. destruct (N.eqb_spec x sid) as [->|].
+    + intros H. injection H as <-. rewrite Hk1. intros H. injection H as <-. right. exists r'. rewrite Hroom, pair_eqb_refl.
+      split; [reflexivity|]. rewrite Hmem. apply in_nadd_intro. now left.
+    + intros Hx Hkx. destruct (wf_room _ _ h W x sx k' Hx Hkx) as [?|[r0 [Hr0 Hm0]]]; [now left|right].
+      rewrite Hroom. destruct (pair_eqb_spec k' k) as [->|]; [|eauto].
+      exists r'. split; [reflexivity|]. rewrite Hmem. apply in_nadd_intro. right. unfold r. now rewrite Hr0.
+  - intros x v Hx. destruct (wf_rs1 _ _ h W x v Hx) as [sx [kx [Hsx Hkx]]]. rewrite Hget.
+    destruct (N.eqb_spec x sid) as [->|]; [|eauto]. rewrite Hs in Hsx. injection Hsx as <-. congruence.
+  - apply (wf_rs2 _ _ h W).
+  - intros p v vs Hv. destruct (wf_vt _ _ h W p v vs Hv) as [sv [Hsv Hkv]]. rewrite Hget.
+    destruct (N.eqb_spec vs sid) as [->|]; [|eauto]. rewrite Hs in Hsv. injection Hsv as <-. eexists; split; [reflexivity|congruence].
+  - intros vs sv p v. rewrite Hget. intros Hsv Hkv.
+    assert (Hp : xp p \/ exists ps, get_sess h p = Some ps /\ is_internal (s_kind ps) = true).
+    { destruct (N.eqb_spec vs sid) as [->|]; [injection Hsv as <-; apply (wf_parent _ _ h W sid s p v Hs); congruence|apply (wf_parent _ _ h W vs sv p v Hsv Hkv)]. }
+    destruct Hp as [?|[ps [Hps Hpi]]]; [now left|right]. rewrite Hget.
+    destruct (N.eqb_spec p sid) as [->|]; [|eauto]. rewrite Hs in Hps. injection Hps as <-. eexists; split; [reflexivity|congruence].
+  - intros x Hx. apply Hlive. eapply wf_expired; eauto.
+  - intros x Hx. apply Hlive. eapply wf_anonymous; eauto.
+  - intros x Hx. apply Hlive. eapply wf_dialout; eauto.
+  - intros x Hx. apply Hlive. eapply wf_clients; eauto.
+  - intros b l x Hb Hx. apply Hlive. eapply wf_counted; eauto.
+  - intros c cn x Hc Hx. destruct (wf_conns _ _ h W c cn x Hc Hx) as [sx [Hsx Hcx]]. rewrite Hget.
+    destruct (N.eqb_spec x sid) as [->|]; [|eauto]. rewrite Hs in Hsx. injection Hsx as <-. eexists; split; [reflexivity|congruence].
+Qed.
+
+Lemma leave_room_noroom h sid notify s' :
+  get_sess (fst (leave_room h sid notify)) sid = Some s' -> s_room s' = None.
+Proof.
+  intros Hs. pose proof (leave_room_core h sid notify sid) as Hq. rewrite Hs, N.eqb_refl in Hq. cbn in Hq.
+  destruct (get_sess h sid) as [s|]; [|discriminate]. unfold core, unroomed in Hq.
+  destruct (s_room s) eqn:Hr; inversion Hq; congruence.
+Qed.
+
+Lemma wf_join_room xr h c sid k rs perms su :
+  WFg xr none1 h -> WFg xr none1 (fst (join_room h c sid k rs perms su)).
+Proof.
+  intros W. unfold join_room.
+  destruct (leave_room h sid true) as [h1 o1] eqn:Hl. pose proof (fst_eq _ _ _ Hl) as E1.
+  assert (W1 : WFg xr none1 h1) by (rewrite E1; now apply wf_leave_room).
+  destruct (get_sess h1 sid) as [s|] eqn:Hs; [|exact W1].
+  assert (Hnone : s_room s = None) by (rewrite E1 in Hs; eapply leave_room_noroom; eauto).
+  set (r := match room_of h1 k with Some x => x | None => empty_room end).
+  set (r' := mkroom (nadd sid (r_members r)) (r_incall r) (if N.eqb su 0 then r_sessdata r else aset (r_sessdata r) sid su) (r_transient r) (r_props r)).
+  set (s1 := upd_sess s (Some k) rs (s_conn s) (match perms with Some p => Some p | None => s_perms s end) (s_pending s) [] (h_clock h1)).
+  set (hA := put_sess (set_rooms h1 (pset (h_rooms h1) k r')) sid s1).
+  assert (WA : WFg xr none1 hA) by (apply (wf_enter_room _ _ h1 sid s s1 k r'); auto).
+  assert (HsA : get_sess hA sid = Some s1) by (unfold hA, get_sess, put_sess; hsimpl; apply aget_aset_same).
+  set (h2 := set_clock hA (h_clock h1 + 1)).
+  assert (W2 : WFg xr none1 h2) by (eapply wf_equiv; [apply equiv_clock|exact WA]).
+  set (h3 := if N.eqb rs 0 then h2 else rs_set h2 sid rs).
+  assert (W3 : WFg xr none1 h3).
+  { unfold h3. destruct (N.eqb rs 0); [exact W2|]. apply (wf_rs_set _ _ h2 sid rs s1 k); auto. }
+  set (h4 := set_anonymous h3 (nrem sid (h_anonymous h3))).
+  assert (W4 : WFg xr none1 h4).
+  { apply wf_set_anonymous; [exact W3|]. intros x Hx. apply (wf_anonymous _ _ _ W3). eapply in_nrem; eauto. }
+  set (h5 := match s_kind s with KInternal _ true => set_dialout h4 (nrem sid (h_dialout h4)) | _ => h4 end).
+  assert (W5 : WFg xr none1 h5).
+  { unfold h5. destruct (s_kind s) as [|f d|]; try exact W4. destruct d; [|exact W4].
+    apply wf_set_dialout; [exact W4|]. intros x Hx. apply (wf_dialout _ _ _ W4). eapply in_nrem; eauto. }
+  destruct (send_session h5 sid (SRoom (snd k))) as [h7 o2] eqn:Hsend. pose proof (fst_eq _ _ _ Hsend) as E7.
+  assert (W7 : WFg xr none1 h7) by (rewrite E7; now apply wf_send_session).
+  destruct (room_of h7 k); [|exact W7].
+  set (h9 := if nmem sid (r_members r) then h7 else publish h7 (SubjRoom (fst k) (snd k)) (ARoomEvent (SJoin [(sid, if N.eqb (s_user s) 0 then su else s_user s)]))).
+  assert (W9 : WFg xr none1 h9).
+  { unfold h9. destruct (nmem sid (r_members r)); [exact W7|]. eapply wf_equiv; [apply equiv_publish|exact W7]. }
+  match goal with |- context [let '(h10, outs3) := ?X in _] => destruct X as [h10 o3] eqn:H10 end.
+  assert (W10 : WFg xr none1 h10).
+  { destruct (nmem sid (r_members r)); [injection H10 as <- <-; exact W9|].
+    destruct (r_transient r); [injection H10 as <- <-; exact W9|].
+    rewrite (fst_eq _ _ _ H10). now apply wf_send_session. }
+  cbn [fst]. eapply wf_equiv; [apply equiv_publish|exact W10].
+Qed.
+
+Lemma wf_kick xr h rs : WFg xr none1 h -> WFg xr none1 (fst (kick_room_session h rs)).
+Proof.
+  intros W. unfold kick_room_session. destruct (aget (h_rs2 h) rs) as [sid'|]; [|exact W].
+  destruct (get_sess h sid') as [s'|]; [|cbn [fst]; eapply wf_equiv; [apply equiv_publish|exact W]].
+  destruct (leave_room h sid' false) as [h1 o1] eqn:Hl. pose proof (fst_eq _ _ _ Hl) as E1.
+  assert (W1 : WFg xr none1 h1) by (rewrite E1; now apply wf_leave_room).
+  match goal with |- context [let '(h2, outs2) := ?X in _] => destruct X as [h2 o2] eqn:H2 end.
+  assert (W2 : WFg xr none1 h2).
+  { destruct (s_kind s') as [| |p v]; destruct (s_conn s') as [c'|];
+      try (injection H2 as <- <-; exact W1); rewrite (fst_eq _ _ _ H2); now apply wf_send_conn. }
+  destruct (close_session h2 sid') as [h3 o3] eqn:H3. cbn [fst]. rewrite (fst_eq _ _ _ H3). now apply wf_close_session.
+Qed.
+
+(* messages that never close the connection they are written to *)
+Definition never_closing (m : smsg) : bool := match m with SBye _ | SDisinvite _ => false | _ => true end.
+
+Lemma deliver_out_kind h sid m h1 c mm :
+  deliver_to_session h sid m = (h1, [ToConn c mm]) -> never_closing m = true -> never_closing mm = true.
+Proof.
+  unfold deliver_to_session. destruct (get_sess h sid) as [s|]; [|discriminate].
+  match goal with |- context [let '(m', s1) := ?X in _] => destruct X as [m' s1] eqn:HX end.
+  intros H Hn. destruct m' as [m0|]; [|discriminate]. destruct (s_conn s1); [|discriminate]. injection H as _ _ <-.
+  destruct m; cbn [never_closing] in *; try discriminate; try (inversion HX; subst; reflexivity).
+  match type of HX with context [filter_seen ?a ?b] => destruct (filter_seen a b) as [keep seen'] end.
+  destruct keep; inversion HX; subst; reflexivity.
+Qed.
+
+Lemma is_closing_never h c m : never_closing m = true -> is_closing h c m = false.
+Proof. destruct m; cbn; intros H; try reflexivity; discriminate. Qed.
+
+Lemma equiv_send_session h sid m : never_closing m = true -> equiv h (fst (send_session h sid m)).
+Proof.
+  intros Hn. unfold send_session.
+  match goal with |- context [deliver_to_session h ?t m] => set (target := t) end.
+  destruct (deliver_to_session h target m) as [h1 outs] eqn:Hd. pose proof (fst_eq _ _ _ Hd) as E1.
+  assert (Eq1 : equiv h h1) by (rewrite E1; apply equiv_deliver_to_session).
+  destruct outs as [|[c mm| | |] [|o2 outs2]]; cbn [fst]; try exact Eq1.
+  rewrite (is_closing_never h1 c mm); [exact Eq1|]. eapply deliver_out_kind; eauto.
+Qed.
+
+Lemma leave_room_live h sid notify x : live h x -> live (fst (leave_room h sid notify)) x.
+Proof.
+  intros [sx Hx]. pose proof (leave_room_core h sid notify x) as Hq. unfold live.
+  destruct (get_sess (fst (leave_room h sid notify)) x) as [s'|]; [eauto|]. cbn in Hq.
+  destruct (N.eqb_spec x sid) as [->|]; rewrite Hx in Hq; [destruct (s_room sx)|]; discriminate.
+Qed.
+
+Lemma wf_do_join xr h c sid s rn rs rep :
+  WFg xr none1 h -> get_sess h sid = Some s -> WFg xr none1 (fst (do_join h c sid s rn rs rep)).
+Proof.
+  intros W Hs. unfold do_join. destruct (N.eqb rn 0).
+  - destruct (s_room s); [|exact W].
+    destruct (leave_room h sid true) as [h1 o1] eqn:Hl. pose proof (fst_eq _ _ _ Hl) as E1.
+    assert (W1 : WFg xr none1 h1) by (rewrite E1; now apply wf_leave_room).
+    destruct (send_session h1 sid (SRoom 0)) as [h2 o2] eqn:H2. pose proof (fst_eq _ _ _ H2) as E2.
+    assert (W2 : WFg xr none1 h2) by (rewrite E2; now apply wf_send_session).
+    cbn [fst]. destruct (N.eqb (s_user s) 0 && negb (is_internal (s_kind s))); [|exact W2].
+    apply wf_set_anonymous; [exact W2|]. intros x Hx. apply in_nadd in Hx as [->|Hx]; [|apply (wf_anonymous _ _ _ W2 x Hx)].
+    rewrite E2. apply (equiv_live _ _ _ (equiv_send_session h1 sid (SRoom 0) eq_refl)).
+    rewrite E1. apply leave_room_live. eexists; eauto.
+  - set (k := (s_backend s, rn)). set (rsv := if N.eqb rs 0 then 0 else 1000000 + rs).
+    destruct (match room_of h k with Some r => nmem sid (r_members r) | None => false end) eqn:Hin.
+    + (* already in that room *)
+      set (newrs := if N.eqb rs 0 then 2000000 + sid else rsv).
+      assert (Hk : s_room s = Some k).
+      { destruct (room_of h k) as [r|] eqn:Hr; [|discriminate]. apply nmem_In in Hin.
+        destruct (wf_members _ _ h W k r sid Hr Hin) as [s0 [Hs0 Hk0]]. rewrite Hs in Hs0. injection Hs0 as <-. exact Hk0. }
+      set (h1 := if N.eqb (s_rs s) newrs then h else put_sess (rs_set h sid newrs) sid (sess_rs s newrs)).
+      assert (W1 : WFg xr none1 h1).
+      { unfold h1. destruct (N.eqb (s_rs s) newrs); [exact W|].
+        assert (Wr : WFg xr none1 (rs_set h sid newrs)) by (apply (wf_rs_set _ _ h sid newrs s k); auto).
+        eapply wf_equiv; [|exact Wr]. apply equiv_put with s; [|reflexivity].
+        unfold get_sess. unfold rs_set. destruct (N.eqb newrs 0); [destruct (aget (h_rs1 h) sid)|destruct (aget (h_rs1 h) sid) as [prev|]; [destruct (N.eqb prev newrs)|]]; exact Hs. }
+      destruct (send_session h1 sid (SError E_already_joined)) as [h2 o2] eqn:H2. cbn [fst].
+      rewrite (fst_eq _ _ _ H2). now apply wf_send_session.
+    + destruct (is_internal (s_kind s)); [now apply wf_join_room|].
+      match goal with |- context [let '(h1, outs1) := ?X in _] => destruct X as [h1 o1] eqn:H1 end.
+      assert (W1 : WFg xr none1 h1).
+      { destruct (N.eqb rs 0 || N.eqb (s_rs s) rsv); [injection H1 as <- <-; exact W|].
+        rewrite (fst_eq _ _ _ H1). now apply wf_kick. }
+      destruct (get_sess h1 sid); [|exact W1].
+      destruct rep as [perms su|code].
+      * destruct (join_room h1 c sid k rsv perms su) as [h2 o2] eqn:H2. cbn [fst]. rewrite (fst_eq _ _ _ H2). now apply wf_join_room.
+      * destruct (send_session h1 sid (SError code)) as [h2 o2] eqn:H2. cbn [fst]. rewrite (fst_eq _ _ _ H2). now apply wf_send_session.
+Qed.
